@@ -1,1 +1,704 @@
-int main(){return 0;}
+// Component monitors with plain-definition oracles (C17 codecs/containers, C18 code tables, C19 libcds, C20 Re-Pair).
+//   comp_driver --mode vbyte|logseq|dacvls|dacbvls|codes|bitseq|wt|repair --seed S --cases N [--from A --to B] --out FILE
+#include "crumb.h"
+#include "model.h"
+#include <sstream>
+#include <fstream>
+#include <iostream>
+#include <map>
+#include <set>
+#include <vector>
+#include <algorithm>
+#include <string>
+#include <memory>
+#define protected public
+#define private public
+#include "RePair/RePair.h"
+#include "utils/DAC_VLS.h"
+#include "utils/DAC_BVLS.h"
+#include "HuTucker/HuTucker.h"
+#include "Huffman/Huffman.h"
+#undef protected
+#undef private
+#include "utils/LogSequence.h"
+#include "utils/VByte.h"
+#include "utils/Utils.h"
+#include <BitSequence.h>
+#include <BitSequenceBuilder.h>
+#include <Sequence.h>
+#include <WaveletTree.h>
+#include <WaveletTreeNoptrs.h>
+#include <MapperNone.h>
+#include <wt_coder_huff.h>
+
+using namespace cds_static;
+static long g_big = 0;
+#define V(props, op, fclass, qcls, detail) obs::violation(props, op, fclass, qcls, detail)
+
+// ---------------------------------------------------------------------------------------- VByte (C17)
+static void mode_vbyte(uint64_t from, uint64_t to, uint64_t seed, long nrandom) {
+  uchar buf[16], buf2[16];
+  uint64_t tried = 0;
+  auto probe = [&](uint32_t v) {
+    memset(buf, 0xEE, sizeof buf);
+    uint n = VByte::encode(v, buf);
+    uint d = 0xDEADBEEF;
+    uint m = VByte::decode(&d, buf);
+    tried++;
+    uint expect = v < (1u << 7) ? 1 : v < (1u << 14) ? 2 : v < (1u << 21) ? 3 : v < (1u << 28) ? 4 : 5;
+    if (d != v || n != m || n != expect || buf[n] != 0xEE)
+      V("C17", "vbyte", d != v ? "wrong-answer" : "length-mismatch", "VByte", "value " + std::to_string(v) + " encoded in " + std::to_string(n) + " bytes decodes to " + std::to_string(d) + " in " + std::to_string(m) + " bytes");
+    memset(buf2, 0xEE, sizeof buf2);
+    uint n2 = encodeVB2(v, buf2);
+    uint d2 = 0;
+    uint m2 = decodeVB2(&d2, buf2);
+    if (d2 != v || n2 != m2 || n2 != n || memcmp(buf, buf2, n) != 0)
+      V("C17", "vbyte", "wrong-answer", "encodeVB2", "value " + std::to_string(v) + " encodeVB2/decodeVB2 disagree (" + std::to_string(d2) + ", " + std::to_string(n2) + "/" + std::to_string(m2) + " bytes)");
+  };
+  obs::crumb("C17", "vbyte", "range");
+  for (uint64_t v = from; v < to; v++) probe((uint32_t)v);
+  for (int s = 7; s <= 28; s += 7)
+    for (long d = -3; d <= 3; d++) probe((uint32_t)((1ull << s) + d));
+  for (long d = 0; d <= 4; d++) { probe((uint32_t)d); probe((uint32_t)(0xFFFFFFFFu - d)); probe((uint32_t)(0x80000000u + d)); probe((uint32_t)(0x80000000u - d)); }
+  Rng r(seed);
+  for (long i = 0; i < nrandom; i++) probe((uint32_t)(r.next() >> (r.next() % 33)));
+  obs::count("eval.vbyte", (long)tried);
+  obs::line("X\tVByte encode->decode identity and byte counts on values " + std::to_string(from) + ".." + std::to_string(to) + ", every power-of-128 boundary +-3, " + std::to_string(nrandom) + " random values");
+}
+
+// ---------------------------------------------------------------------------------------- LogSequence (C17)
+static void mode_logseq(uint64_t seed, long cases) {
+  Rng r(seed);
+  for (long cs = 0; cs < cases; cs++) {
+    uint w = 1 + (uint)(cs % 64);
+    size_t len = 1 + r.below(g_big ? 20000 : 300);
+    if (cs % 7 == 0) len = 64 / std::max(1u, std::__gcd(w, 64u)) * (1 + r.below(4)); // fields ending exactly on word boundaries
+    uint64_t maxv = w == 64 ? ~0ull : ((1ull << w) - 1);
+    obs::crumb("C17", "logseq", "width=" + std::to_string(w) + " len=" + std::to_string(len));
+    LogSequence ls(w, len);
+    std::vector<uint64_t> shadow(len, 0);
+    obs::count("cls.width_" + std::string(w == 64 ? "64" : w > 32 ? "33_63" : w == 32 ? "32" : "1_31"));
+    long writes = (long)std::min<size_t>(len * 3, 3000);
+    bool bad = false;
+    for (long k = 0; k < writes && !bad; k++) {
+      size_t pos = r.below(len);
+      uint64_t val = r.chance(10) ? maxv : r.chance(10) ? 0 : (r.next() & maxv);
+      ls.setField(pos, val);
+      shadow[pos] = val;
+      obs::count("eval.logseq_write");
+      for (long d = -2; d <= 2; d++) { // the written field and its neighbours
+        long q = (long)pos + d;
+        if (q < 0 || (size_t)q >= len) continue;
+        uint64_t got = ls.getField((size_t)q);
+        if (got != shadow[q]) {
+          V("C17", "logseq", d == 0 ? "wrong-answer" : "neighbour-disturbed", "width_" + std::to_string(w), "width " + std::to_string(w) + " len " + std::to_string(len) + ": after setField(" + std::to_string(pos) + "," + std::to_string(val) + ") getField(" + std::to_string(q) + ")=" + std::to_string(got) + " expected " + std::to_string(shadow[q]));
+          bad = true;
+          break;
+        }
+      }
+    }
+    if (bad) continue;
+    for (size_t i = 0; i < len; i++)
+      if (ls.getField(i) != shadow[i]) { V("C17", "logseq", "wrong-answer", "width_" + std::to_string(w), "full re-read: position " + std::to_string(i)); bad = true; break; }
+    obs::count("eval.logseq_reread", (long)len);
+    // vector constructor
+    if (w <= 63 && !bad) {
+      std::vector<size_t> v(shadow.begin(), shadow.end());
+      LogSequence lv(&v, w);
+      for (size_t i = 0; i < len; i++)
+        if (lv.getField(i) != shadow[i]) { V("C17", "logseq", "wrong-answer", "vector-ctor", "width " + std::to_string(w) + " position " + std::to_string(i)); break; }
+    }
+    // save / load with exact consumption
+    std::stringstream ss(std::ios::in | std::ios::out | std::ios::binary);
+    ls.save(ss);
+    std::string img = ss.str();
+    std::string img2;
+    { std::stringstream s2(std::ios::in | std::ios::out | std::ios::binary); ls.save(s2); img2 = s2.str(); }
+    if (img != img2) V("C17", "logseq", "nondeterministic", "save", "two saves differ");
+    std::stringstream in(img + std::string("CANARY!!"), std::ios::in | std::ios::binary);
+    LogSequence ld(in);
+    obs::count("eval.logseq_saveload");
+    if ((size_t)in.tellg() != img.size()) V("C17", "logseq", "leftover-bytes", "load", "load consumed " + std::to_string((long)in.tellg()) + " of " + std::to_string(img.size()));
+    if (ld.getNumberOfElements() != len) V("C17", "logseq", "wrong-answer", "load", "numentries " + std::to_string(ld.getNumberOfElements()));
+    else
+      for (size_t i = 0; i < len; i++)
+        if (ld.getField(i) != shadow[i]) { V("C17", "logseq", "wrong-answer", "load", "width " + std::to_string(w) + " position " + std::to_string(i) + " after save/load"); break; }
+    if (cs < 3) obs::line("X\tLogSequence width " + std::to_string(w) + ", " + std::to_string(len) + " fields, " + std::to_string(writes) + " random writes each re-read with its 4 neighbours, then save/load");
+  }
+}
+
+// ---------------------------------------------------------------------------------------- DAC_VLS / DAC_BVLS (C17)
+static std::vector<std::vector<uint>> gen_seqs(Rng &r, uint *bitsw, uint *maxlen) {
+  size_t n = 1 + r.below(g_big ? 3000 : 120);
+  uint w = 1 + (uint)r.below(32);
+  uint shape = (uint)r.below(6);
+  uint ml = shape == 0 ? 1 : 1 + (uint)r.below(shape == 1 ? 2 : 12);
+  std::vector<std::vector<uint>> s(n);
+  uint real_max = 0;
+  for (size_t i = 0; i < n; i++) {
+    uint l = 1 + (uint)r.below(ml);
+    if (shape == 3 && i + 1 == n) l = 1;           // a one-symbol last sequence
+    if (shape == 4 && i == n / 2) l = ml;           // one maximal sequence
+    if (shape == 5 && i + 1 == n) l = ml;           // maximal last sequence
+    for (uint k = 0; k < l; k++) s[i].push_back((uint)(r.next() & (w == 32 ? 0xFFFFFFFFu : ((1u << w) - 1))));
+    real_max = std::max<uint>(real_max, l);
+  }
+  *bitsw = w;
+  *maxlen = real_max;
+  return s;
+}
+
+static void mode_dacvls(uint64_t seed, long cases) {
+  Rng r(seed);
+  for (long cs = 0; cs < cases; cs++) {
+    uint w, ml;
+    std::vector<std::vector<uint>> S = gen_seqs(r, &w, &ml);
+    if (w > 31) w = 31; // symbols are stored in an int list: keep them non-negative
+    for (auto &q : S) for (auto &x : q) x &= ((1u << w) - 1);
+    // documented layout: seq... -1 seq... -2 ...; l_Length = size of the array
+    std::vector<int> list;
+    for (size_t i = 0; i < S.size(); i++) {
+      for (uint x : S[i]) list.push_back((int)x);
+      list.push_back(-(int)(i + 1));
+    }
+    obs::crumb("C17", "dacvls", "n=" + std::to_string(S.size()) + " width=" + std::to_string(w) + " maxlen=" + std::to_string(ml));
+    if (ml == 1) obs::count("cls.all_len1");
+    if (S.back().size() == 1) obs::count("cls.last_seq_single_symbol");
+    if (S.back().size() == ml) obs::count("cls.last_seq_maximal");
+    DAC_VLS *d = new DAC_VLS(list.data(), (uint)list.size(), w, ml);
+    auto check = [&](DAC_VLS *x, const char *what) {
+      if (x->getListLength() != S.size()) { V("C17", "dacvls", "wrong-answer", what, "list length " + std::to_string(x->getListLength()) + " expected " + std::to_string(S.size())); return; }
+      // access(pos): pos is the 1-based index in level 0 == index of the sequence
+      for (size_t i = 0; i < S.size(); i++) {
+        uint *seq = NULL;
+        uint l = x->access((uint)(i + 1), &seq);
+        obs::count("eval.dacvls_access");
+        bool ok = l == S[i].size();
+        for (uint k = 0; ok && k < l; k++) ok = seq[k] == S[i][k];
+        delete[] seq;
+        if (!ok) { V("C17", "dacvls", "wrong-answer", what, "access(" + std::to_string(i + 1) + ") of " + std::to_string(S.size()) + " sequences: length " + std::to_string(l) + " expected " + std::to_string(S[i].size())); return; }
+        // access_next walk
+        uint pos = (uint)(i + 1), lev = 0;
+        std::vector<uint> got;
+        while (pos != (uint)-1 && got.size() <= ml + 1) { got.push_back(x->access_next(lev, &pos)); lev++; }
+        obs::count("eval.dacvls_walk");
+        if (got != S[i]) { V("C17", "dacvls", "wrong-answer", what, "access_next walk of sequence " + std::to_string(i + 1) + " yields " + std::to_string(got.size()) + " symbols, expected " + std::to_string(S[i].size())); return; }
+      }
+    };
+    check(d, "built");
+    std::stringstream ss(std::ios::in | std::ios::out | std::ios::binary);
+    d->save(ss);
+    std::string img = ss.str();
+    std::stringstream in(img + "CANARY!!", std::ios::in | std::ios::binary);
+    obs::crumb("C17", "dacvls", "load");
+    DAC_VLS *l = DAC_VLS::load(in);
+    if ((size_t)in.tellg() != img.size()) V("C17", "dacvls", "leftover-bytes", "load", "load consumed " + std::to_string((long)in.tellg()) + " of " + std::to_string(img.size()));
+    check(l, "loaded");
+    std::stringstream s3(std::ios::in | std::ios::out | std::ios::binary);
+    l->save(s3);
+    if (s3.str() != img) V("C17", "dacvls", "nondeterministic", "resave", "image of the loaded DAC differs from the original");
+    delete l;
+    delete d;
+    if (cs < 3) obs::line("X\tDAC_VLS over " + std::to_string(S.size()) + " sequences (max length " + std::to_string(ml) + ", " + std::to_string(w) + "-bit symbols): access + access_next walk of every sequence, built and reloaded");
+  }
+}
+
+static void mode_dacbvls(uint64_t seed, long cases) {
+  Rng r(seed);
+  for (long cs = 0; cs < cases; cs++) {
+    uint w, ml;
+    std::vector<std::vector<uint>> S = gen_seqs(r, &w, &ml);
+    for (auto &q : S) for (auto &x : q) x &= 0xFF; // byte symbols
+    // level-wise layout as StringDictionaryHASHUFFDAC's constructor produces it
+    uint nLevels = ml;
+    std::vector<uint> levelSize(nLevels, 0);
+    uint tam = 0;
+    for (auto &q : S) { for (uint k = 0; k < q.size(); k++) levelSize[k]++; tam += q.size(); }
+    std::vector<uint> levelsIndex(nLevels), x(nLevels);
+    x[0] = 0;
+    for (uint i = 1; i < nLevels; i++) x[i] = x[i - 1] + levelSize[i - 1];
+    for (uint i = 0; i < nLevels; i++) levelsIndex[i] = x[i];
+    std::vector<uint> rankLevels(nLevels + 1, 0);
+    uchar *seq = new uchar[tam];
+    BitString *bs = new BitString(tam);
+    for (auto &q : S)
+      for (uint i = 0; i < q.size(); i++) {
+        seq[x[i]] = (uchar)q[i];
+        if (i + 1 < q.size()) { bs->setBit(x[i], true); rankLevels[i]++; } else bs->setBit(x[i], false);
+        x[i]++;
+      }
+    obs::crumb("C17", "dacbvls", "n=" + std::to_string(S.size()) + " maxlen=" + std::to_string(ml));
+    DAC_BVLS *d = new DAC_BVLS(tam, nLevels, &levelsIndex, &rankLevels, seq, bs);
+    delete bs;
+    auto check = [&](DAC_BVLS *z, const char *what) {
+      for (size_t i = 0; i < S.size(); i++) {
+        uint *sq = NULL;
+        uint l = z->access((uint)(i + 1), &sq);
+        obs::count("eval.dacbvls_access");
+        bool ok = l == S[i].size();
+        for (uint k = 0; ok && k < l; k++) ok = sq[k] == S[i][k];
+        delete[] sq;
+        if (!ok) { V("C17", "dacbvls", "wrong-answer", what, "access(" + std::to_string(i + 1) + "): length " + std::to_string(l) + " expected " + std::to_string(S[i].size())); return; }
+        uint pos = (uint)(i + 1), lev = 0;
+        std::vector<uint> got;
+        while (pos != (uint)-1 && got.size() <= ml + 1) { got.push_back(z->access_next(lev, &pos)); lev++; }
+        if (got != S[i]) { V("C17", "dacbvls", "wrong-answer", what, "access_next walk of sequence " + std::to_string(i + 1)); return; }
+      }
+    };
+    check(d, "built");
+    std::stringstream ss(std::ios::in | std::ios::out | std::ios::binary);
+    d->save(ss);
+    std::string img = ss.str();
+    std::stringstream in(img + "CANARY!!", std::ios::in | std::ios::binary);
+    DAC_BVLS *l = DAC_BVLS::load(in);
+    if ((size_t)in.tellg() != img.size()) V("C17", "dacbvls", "leftover-bytes", "load", "load consumed " + std::to_string((long)in.tellg()) + " of " + std::to_string(img.size()));
+    check(l, "loaded");
+    std::stringstream s3(std::ios::in | std::ios::out | std::ios::binary);
+    l->save(s3);
+    if (s3.str() != img) V("C17", "dacbvls", "nondeterministic", "resave", "image of the loaded DAC differs from the original");
+    delete l;
+    delete d;
+    if (cs < 2) obs::line("X\tDAC_BVLS over " + std::to_string(S.size()) + " byte sequences (max length " + std::to_string(ml) + "), level-wise layout as HASHUFFDAC builds it");
+  }
+}
+
+// ---------------------------------------------------------------------------------------- code tables (C18)
+static std::vector<uint> gen_freqs(Rng &r, std::string *shape) {
+  std::vector<uint> f(256, 1);
+  int k = (int)r.below(9);
+  static const char *names[] = {"uniform", "zipf", "geometric", "fibonacci", "dominant", "random_floor", "two_level", "text_like", "few_symbols"};
+  *shape = names[k];
+  switch (k) {
+  case 0: { uint v = 1 + (uint)r.below(1000); for (auto &x : f) x = v; break; }
+  case 1: { uint c = 1000 + (uint)r.below(100000); std::vector<int> perm(256); for (int i = 0; i < 256; i++) perm[i] = i; for (int i = 255; i > 0; i--) std::swap(perm[i], perm[r.below(i + 1)]); for (int i = 0; i < 256; i++) f[perm[i]] = 1 + c / (i + 1); break; }
+  case 2: { int m = 10 + (int)r.below(20); std::vector<int> perm(256); for (int i = 0; i < 256; i++) perm[i] = i; for (int i = 255; i > 0; i--) std::swap(perm[i], perm[r.below(i + 1)]); for (int i = 0; i < m; i++) f[perm[i]] = 1u << (m - i); break; }
+  case 3: { int m = 12 + (int)r.below(18); uint a = 1, b = 1; int st = (int)r.below(256 - m); for (int i = 0; i < m; i++) { f[st + i] = a + 1; uint t = a + b; a = b; b = t; } break; }
+  case 4: { f[r.below(256)] = 1000000 + (uint)r.below(100000000); for (int i = 0; i < 10; i++) f[r.below(256)] += (uint)r.below(50); break; }
+  case 5: { for (auto &x : f) x = 1 + (uint)(r.chance(60) ? 0 : r.below(5000)); break; }
+  case 6: { for (int i = 0; i < 256; i++) f[i] = (i % 2) ? 1000 : 1; break; }
+  case 7: { for (int i = 'a'; i <= 'z'; i++) f[i] = 1 + (uint)r.below(10000); f[0] = 1 + (uint)r.below(3000); f[' '] = 5000; f[0x80] = 1 + (uint)r.below(400); f[0x81] = 1 + (uint)r.below(400); break; }
+  case 8: { int m = 2 + (int)r.below(4); for (int i = 0; i < m; i++) f[r.below(256)] = 10 + (uint)r.below(100000); break; }
+  }
+  return f;
+}
+
+static void check_code(const std::vector<uint> &f, Codeword *cw, const char *which, const std::string &shape, bool alphabetic) {
+  // prefix-free + complete (Kraft sum == 1) + (Hu-Tucker) alphabetic: left-aligned codewords strictly increase with the symbol
+  long double kraft = 0;
+  uint maxbits = 0;
+  bool ok_len = true;
+  for (int i = 0; i < 256; i++) {
+    uint b = cw[i].bits;
+    if (b == 0 || b > 32) { ok_len = false; continue; }
+    maxbits = std::max(maxbits, b);
+    kraft += 1.0L / (long double)(1ull << b);
+  }
+  obs::count("eval.code_table");
+  if (maxbits > 16) obs::count("cls.codeword_gt16");
+  if (!ok_len) {
+    // codewords are limited to 32 bits by the representation: vectors needing more are skipped and counted
+    uint64_t total = 0; for (uint x : f) total += x;
+    bool needs_more = false; // a weight ratio above 2^32 would be needed for a >32 bit optimal code; otherwise an empty/overlong code is a defect
+    (void)total;
+    for (int i = 0; i < 256; i++) if (cw[i].bits > 32) needs_more = true;
+    if (needs_more) { obs::count("skipped.codeword_gt32"); return; }
+    V("C18", which, "empty-codeword", shape, std::string(which) + ": a symbol has an empty codeword for a " + shape + " frequency vector");
+    return;
+  }
+  if (kraft > 1.0L + 1e-12L || kraft < 1.0L - 1e-12L)
+    V("C18", which, kraft > 1 ? "not-prefix-free" : "incomplete", shape, std::string(which) + ": Kraft sum " + std::to_string((double)kraft) + " for a " + shape + " frequency vector");
+  // explicit prefix test on left-aligned codes
+  std::vector<std::pair<uint64_t, uint>> v;
+  for (int i = 0; i < 256; i++) v.push_back({(uint64_t)cw[i].codeword << (32 - cw[i].bits), cw[i].bits});
+  std::vector<std::pair<uint64_t, uint>> s = v;
+  std::sort(s.begin(), s.end());
+  for (size_t i = 0; i + 1 < s.size(); i++) {
+    uint b = s[i].second;
+    uint64_t mask = b == 32 ? 0xFFFFFFFFull : (~((1ull << (32 - b)) - 1)) & 0xFFFFFFFFull;
+    if ((s[i + 1].first & mask) == s[i].first) { V("C18", which, "not-prefix-free", shape, std::string(which) + ": a codeword is a prefix of another for a " + shape + " frequency vector"); break; }
+  }
+  for (int i = 0; i < 256; i++)
+    if (cw[i].bits < 32 && (cw[i].codeword >> cw[i].bits) != 0) { V("C18", which, "wrong-answer", shape, std::string(which) + ": codeword of symbol " + std::to_string(i) + " wider than its length"); break; }
+  if (alphabetic)
+    for (int i = 0; i + 1 < 256; i++)
+      if (!(v[i].first < v[i + 1].first)) { V("C18,C03", which, "not-alphabetic", shape, std::string(which) + ": codeword of symbol " + std::to_string(i) + " does not precede the one of symbol " + std::to_string(i + 1) + " (" + shape + " frequencies)"); break; }
+}
+
+static void mode_codes(uint64_t seed, long cases) {
+  Rng r(seed);
+  for (long cs = 0; cs < cases; cs++) {
+    std::string shape;
+    std::vector<uint> f = gen_freqs(r, &shape);
+    obs::count("cls.shape_" + shape);
+    {
+      obs::crumb("C18", "hutucker", shape);
+      std::vector<uint> g = f;
+      HuTucker *ht = new HuTucker(g.data());
+      Codeword *cw = ht->obtainCodewords();
+      check_code(f, cw, "hutucker", shape, true);
+      delete[] cw;
+      delete ht;
+    }
+    {
+      obs::crumb("C18", "huffman", shape);
+      std::vector<uint> g = f;
+      Huffman *hf = new Huffman(g.data());
+      Codeword *cw = hf->obtainCodewords();
+      check_code(f, cw, "huffman", shape, false);
+      delete[] cw;
+      delete hf;
+    }
+    if (cs < 3) obs::line("X\tHu-Tucker and Huffman code tables for a " + shape + " frequency vector: prefix-free, Kraft sum 1, Hu-Tucker alphabetic");
+  }
+}
+
+// ---------------------------------------------------------------------------------------- bit sequences (C19)
+struct BitModel {
+  std::vector<bool> b;
+  std::vector<size_t> pre1; // ones in [0..i]
+  std::vector<size_t> ones, zeros;
+  void build() {
+    pre1.assign(b.size(), 0);
+    ones.clear(); zeros.clear();
+    size_t c = 0;
+    for (size_t i = 0; i < b.size(); i++) { if (b[i]) { c++; ones.push_back(i); } else zeros.push_back(i); pre1[i] = c; }
+  }
+};
+
+static std::vector<bool> gen_bits(Rng &r, std::string *shape) {
+  size_t n;
+  int k = (int)r.below(10);
+  static const char *names[] = {"all0", "all1", "single1", "single0", "alternating", "runs", "random_sparse", "random_dense", "random_half", "block_uniform"};
+  *shape = names[k];
+  size_t lens[] = {1, 2, 14, 15, 16, 29, 30, 31, 32, 33, 45, 60, 63, 64, 65, 127, 128, 129, 255, 256, 300, 480, 481, 1000, 1920, 2049};
+  n = r.chance(70) ? lens[r.below(sizeof(lens) / sizeof(lens[0]))] : 1 + r.below(g_big ? 200000 : 3000);
+  std::vector<bool> b(n, false);
+  switch (k) {
+  case 0: break;
+  case 1: b.assign(n, true); break;
+  case 2: b[r.below(n)] = true; break;
+  case 3: b.assign(n, true); b[r.below(n)] = false; break;
+  case 4: for (size_t i = 0; i < n; i++) b[i] = (i & 1) != 0; break;
+  case 5: { bool v = r.chance(50); size_t i = 0; while (i < n) { size_t l = 1 + r.below(70); if (r.chance(30)) l = 15 * (1 + r.below(4)); for (size_t j = 0; j < l && i < n; j++, i++) b[i] = v; v = !v; } break; }
+  case 6: for (size_t i = 0; i < n; i++) b[i] = r.below(100) < 2; break;
+  case 7: for (size_t i = 0; i < n; i++) b[i] = r.below(100) < 97; break;
+  case 8: for (size_t i = 0; i < n; i++) b[i] = r.chance(50); break;
+  case 9: { for (size_t blk = 0; blk * 15 < n; blk++) { int t = (int)r.below(3); for (size_t j = blk * 15; j < (blk + 1) * 15 && j < n; j++) b[j] = t == 0 ? false : t == 1 ? true : r.chance(50); } break; }
+  }
+  return b;
+}
+
+static void check_bitseq(BitSequence *bs, const BitModel &m, const std::string &what, const std::string &shape, bool do_select) {
+  size_t n = m.b.size();
+  if (bs->getLength() != n) { V("C19", "bitseq", "wrong-answer", what, what + " getLength " + std::to_string(bs->getLength()) + " expected " + std::to_string(n)); return; }
+  if (bs->countOnes() != m.ones.size()) { V("C19", "bitseq", "wrong-answer", what, what + " countOnes " + std::to_string(bs->countOnes()) + " expected " + std::to_string(m.ones.size()) + " (" + shape + ", n=" + std::to_string(n) + ")"); return; }
+  size_t step = n > 5000 ? n / 2500 : 1;
+  for (size_t i = 0; i < n; i += (i + step < n || i + 1 == n) ? step : (n - 1 - i ? n - 1 - i : 1)) {
+    obs::count("eval.bitseq_query", 3);
+    bool a = bs->access(i);
+    size_t r1 = bs->rank1(i), r0 = bs->rank0(i);
+    if (a != m.b[i] || r1 != m.pre1[i] || r0 != i + 1 - m.pre1[i]) {
+      V("C19", "bitseq", "wrong-answer", what, what + " (" + shape + ", n=" + std::to_string(n) + ") at i=" + std::to_string(i) + ": access=" + std::to_string(a) + " rank1=" + std::to_string(r1) + " rank0=" + std::to_string(r0) + " expected " + std::to_string(m.b[i]) + "/" + std::to_string(m.pre1[i]) + "/" + std::to_string(i + 1 - m.pre1[i]));
+      return;
+    }
+    if (i + 1 == n) break;
+  }
+  if (!do_select) return;
+  size_t s1 = m.ones.size() > 3000 ? m.ones.size() / 1500 : 1;
+  for (size_t j = 1; j <= m.ones.size(); j += s1) {
+    obs::count("eval.bitseq_query");
+    size_t p = bs->select1(j);
+    if (p != m.ones[j - 1]) { V("C19", "bitseq", "wrong-answer", what, what + " (" + shape + ", n=" + std::to_string(n) + ") select1(" + std::to_string(j) + ")=" + std::to_string(p) + " expected " + std::to_string(m.ones[j - 1])); return; }
+  }
+  size_t s0 = m.zeros.size() > 3000 ? m.zeros.size() / 1500 : 1;
+  for (size_t j = 1; j <= m.zeros.size(); j += s0) {
+    obs::count("eval.bitseq_query");
+    size_t p = bs->select0(j);
+    if (p != m.zeros[j - 1]) { V("C19", "bitseq", "wrong-answer", what, what + " (" + shape + ", n=" + std::to_string(n) + ") select0(" + std::to_string(j) + ")=" + std::to_string(p) + " expected " + std::to_string(m.zeros[j - 1])); return; }
+  }
+}
+
+static bool has_variant(const std::string &list, const std::string &v) { return ("," + list + ",").find("," + v + ",") != std::string::npos; }
+
+static void mode_bitseq(uint64_t seed, long cases, const std::string &variants) {
+  Rng r(seed);
+  for (long cs = 0; cs < cases; cs++) {
+    std::string shape;
+    BitModel m;
+    m.b = gen_bits(r, &shape);
+    m.build();
+    size_t n = m.b.size();
+    obs::count("cls.bitvec_" + shape);
+    if (n % 32 == 0) obs::count("cls.bitvec_len_mod32_0");
+    if (n % 15 == 0) obs::count("cls.bitvec_len_mod15_0");
+    uint *raw = new uint[n / 32 + 2]();
+    for (size_t i = 0; i < n; i++) if (m.b[i]) raw[i / 32] |= 1u << (i % 32);
+    struct Var { std::string name; BitSequence *bs; };
+    std::vector<Var> vars;
+    uint rg = (uint)std::vector<uint>{1, 2, 3, 4, 8, 20, 32, 40}[r.below(8)];
+    uint rr = (uint)std::vector<uint>{1, 2, 3, 5, 7, 8, 16, 32, 64, 128}[r.below(10)];
+    if (has_variant(variants, "rg")) { obs::crumb("C19", "bitseq", "build RG factor " + std::to_string(rg) + " " + shape + " n=" + std::to_string(n)); vars.push_back({"RG(" + std::to_string(rg) + ")", new BitSequenceRG(raw, n, rg)}); }
+    if (has_variant(variants, "rrr")) { obs::crumb("C19", "bitseq", "build RRR rate " + std::to_string(rr) + " " + shape + " n=" + std::to_string(n)); vars.push_back({"RRR(" + std::to_string(rr) + ")", new BitSequenceRRR(raw, n, rr)}); }
+    if (has_variant(variants, "sdarray") && !m.ones.empty()) { obs::crumb("C19", "bitseq", "build SDArray " + shape + " n=" + std::to_string(n)); vars.push_back({"SDArray", new BitSequenceSDArray(raw, n)}); }
+    if (has_variant(variants, "darray") && !m.ones.empty()) { obs::crumb("C19", "bitseq", "build DArray " + shape + " n=" + std::to_string(n)); vars.push_back({"DArray", new BitSequenceDArray(raw, n)}); }
+    for (auto &v : vars) {
+      obs::crumb("C19", "bitseq", "query " + v.name + " " + shape + " n=" + std::to_string(n));
+      check_bitseq(v.bs, m, v.name, shape, true);
+      std::stringstream ss(std::ios::in | std::ios::out | std::ios::binary);
+      obs::crumb("C19", "bitseq", "save/load " + v.name + " " + shape + " n=" + std::to_string(n));
+      v.bs->save(ss);
+      std::string img = ss.str();
+      std::stringstream in(img + "CANARY!!", std::ios::in | std::ios::binary);
+      BitSequence *l = BitSequence::load(in);
+      if (!l) V("C19", "bitseq", "load-failed", v.name, "BitSequence::load returned NULL for " + v.name);
+      else {
+        if ((size_t)in.tellg() != img.size()) V("C19", "bitseq", "leftover-bytes", v.name, v.name + " load consumed " + std::to_string((long)in.tellg()) + " of " + std::to_string(img.size()));
+        check_bitseq(l, m, v.name + "/loaded", shape, true);
+        delete l;
+      }
+      delete v.bs;
+    }
+    delete[] raw;
+    if (cs < 3) obs::line("X\tbit vector " + shape + " of " + std::to_string(n) + " bits (" + std::to_string(m.ones.size()) + " ones): access/rank0/rank1 at every position, select0/select1 for every j, on " + std::to_string(vars.size()) + " variants, built and reloaded");
+  }
+}
+
+// ---------------------------------------------------------------------------------------- wavelet trees (C19)
+static void mode_wt(uint64_t seed, long cases) {
+  Rng r(seed);
+  for (long cs = 0; cs < cases; cs++) {
+    size_t n = 1 + r.below(g_big ? 50000 : 1500);
+    uint sigma = (uint)std::vector<uint>{1, 2, 3, 4, 16, 64, 200, 256}[r.below(8)];
+    bool skew = r.chance(50);
+    std::vector<uint> seq(n);
+    uint base = sigma < 200 ? (uint)r.below(256 - sigma) : 0;
+    for (size_t i = 0; i < n; i++) {
+      uint x = skew ? (uint)std::min<uint64_t>(sigma - 1, (uint64_t)(r.below(sigma) * r.below(sigma) / std::max(1u, sigma))) : (uint)r.below(sigma);
+      seq[i] = base + x;
+    }
+    std::map<uint, std::vector<size_t>> occ;
+    for (size_t i = 0; i < n; i++) occ[seq[i]].push_back(i);
+    obs::count("cls.sigma_" + std::to_string(sigma));
+    bool rrr = r.chance(50);
+    uint par = rrr ? (uint)std::vector<uint>{8, 16, 32, 128}[r.below(4)] : (uint)std::vector<uint>{2, 4, 20}[r.below(3)];
+    auto check = [&](Sequence *s, const std::string &what) {
+      size_t step = n > 4000 ? n / 2000 : 1;
+      for (size_t i = 0; i < n; i += step) {
+        obs::count("eval.wt_query", 2);
+        uint a = s->access(i);
+        if (a != seq[i]) { V("C19", "wt", "wrong-answer", what, what + " access(" + std::to_string(i) + ")=" + std::to_string(a) + " expected " + std::to_string(seq[i]) + " (n=" + std::to_string(n) + " sigma=" + std::to_string(sigma) + ")"); return; }
+        uint c = seq[r.below(n)];
+        const std::vector<size_t> &o = occ[c];
+        size_t expect = std::upper_bound(o.begin(), o.end(), i) - o.begin();
+        size_t got = s->rank(c, i);
+        if (got != expect) { V("C19", "wt", "wrong-answer", what, what + " rank(" + std::to_string(c) + "," + std::to_string(i) + ")=" + std::to_string(got) + " expected " + std::to_string(expect)); return; }
+      }
+      for (auto &kv : occ) {
+        size_t st = kv.second.size() > 500 ? kv.second.size() / 250 : 1;
+        for (size_t j = 1; j <= kv.second.size(); j += st) {
+          obs::count("eval.wt_query");
+          size_t p = s->select(kv.first, j);
+          if (p != kv.second[j - 1]) { V("C19", "wt", "wrong-answer", what, what + " select(" + std::to_string(kv.first) + "," + std::to_string(j) + ")=" + std::to_string(p) + " expected " + std::to_string(kv.second[j - 1])); return; }
+        }
+      }
+    };
+    {
+      // the configuration FMINDEX and XBW use: Huffman shape, identity mapper
+      std::vector<uint> cp = seq;
+      Mapper *am = new MapperNone();
+      am->use();
+      wt_coder *wc = new wt_coder_huff(cp.data(), n, am);
+      wc->use();
+      BitSequenceBuilder *bsb = rrr ? (BitSequenceBuilder *)new BitSequenceBuilderRRR(par) : (BitSequenceBuilder *)new BitSequenceBuilderRG(par);
+      bsb->use();
+      obs::crumb("C19", "wt", "WaveletTree n=" + std::to_string(n) + " sigma=" + std::to_string(sigma) + (rrr ? " RRR " : " RG ") + std::to_string(par));
+      WaveletTree *wt = new WaveletTree(cp.data(), n, wc, bsb, am);
+      check(wt, "WaveletTree");
+      std::stringstream ss(std::ios::in | std::ios::out | std::ios::binary);
+      wt->save(ss);
+      std::string img = ss.str();
+      std::stringstream in(img + "CANARY!!", std::ios::in | std::ios::binary);
+      Sequence *l = Sequence::load(in);
+      if (!l) V("C19", "wt", "load-failed", "WaveletTree", "Sequence::load returned NULL");
+      else {
+        if ((size_t)in.tellg() != img.size()) V("C19", "wt", "leftover-bytes", "WaveletTree", "load consumed " + std::to_string((long)in.tellg()) + " of " + std::to_string(img.size()));
+        check(l, "WaveletTree/loaded");
+        delete l;
+      }
+      delete wt;
+      wc->unuse();
+      bsb->unuse();
+      am->unuse();
+    }
+    {
+      std::vector<uint> cp = seq;
+      Mapper *am = new MapperNone();
+      am->use();
+      BitSequenceBuilder *bsb = rrr ? (BitSequenceBuilder *)new BitSequenceBuilderRRR(par) : (BitSequenceBuilder *)new BitSequenceBuilderRG(par);
+      bsb->use();
+      obs::crumb("C19", "wt", "WaveletTreeNoptrs n=" + std::to_string(n) + " sigma=" + std::to_string(sigma));
+      WaveletTreeNoptrs *wt = new WaveletTreeNoptrs(cp.data(), n, bsb, am);
+      check(wt, "WaveletTreeNoptrs");
+      std::stringstream ss(std::ios::in | std::ios::out | std::ios::binary);
+      wt->save(ss);
+      std::string img = ss.str();
+      std::stringstream in(img + "CANARY!!", std::ios::in | std::ios::binary);
+      Sequence *l = Sequence::load(in);
+      if (!l) V("C19", "wt", "load-failed", "WaveletTreeNoptrs", "Sequence::load returned NULL");
+      else { check(l, "WaveletTreeNoptrs/loaded"); delete l; }
+      delete wt;
+      bsb->unuse();
+      am->unuse();
+    }
+    if (cs < 3) obs::line("X\tsequence of " + std::to_string(n) + " symbols over an alphabet of " + std::to_string(sigma) + (skew ? " (skewed)" : " (uniform)") + ": access/rank/select on WaveletTree (Huffman shape) and WaveletTreeNoptrs, built and reloaded");
+  }
+}
+
+// ---------------------------------------------------------------------------------------- Re-Pair (C20)
+static std::vector<int> gen_repair_input(Rng &r, std::string *shape) {
+  int k = (int)r.below(9);
+  static const char *names[] = {"no_repeated_pair", "single_string", "run", "abab", "fibonacci", "copies", "near_identical", "random_small_alphabet", "random_text"};
+  *shape = names[k];
+  std::vector<std::string> strs;
+  size_t budget = g_big ? 200000 : 4000;
+  auto rs = [&](const std::string &alpha, size_t lo, size_t hi) { std::string s; size_t l = lo + r.below(hi - lo + 1); for (size_t i = 0; i < l; i++) s += alpha[r.below(alpha.size())]; return s; };
+  switch (k) {
+  case 0: { int c = 1; for (int i = 0; i < 40 && c + 3 < 250; i++) { std::string s; for (int j = 0; j < 3; j++) s += (char)(c++); strs.push_back(s); } break; }
+  case 1: strs.push_back(rs("abc", 1, budget)); break;
+  case 2: { size_t n = 1 + r.below(60); for (size_t i = 1; i <= n; i++) strs.push_back(std::string(i + r.below(3), 'a')); break; }
+  case 3: { size_t n = 1 + r.below(60); for (size_t i = 1; i <= n; i++) { std::string s; for (size_t j = 0; j < i; j++) s += (j & 1) ? 'b' : 'a'; strs.push_back(s); } break; }
+  case 4: { std::string a = "a", b = "ab"; for (int i = 0; i < 14; i++) { std::string t = b + a; a = b; b = t; if (b.size() > budget) break; strs.push_back(b); } break; }
+  case 5: { std::string base = rs("abcdefgh", 20, 60); size_t n = 2 + r.below(80); for (size_t i = 0; i < n; i++) strs.push_back(base); break; }
+  case 6: { std::string base = rs("abcdefghijklmnopqrstuvwxyz", 30, 80); size_t n = 2 + r.below(80); for (size_t i = 0; i < n; i++) { std::string s = base; s[r.below(s.size())] = (char)('a' + r.below(26)); strs.push_back(s); } break; }
+  case 7: { size_t n = 1 + r.below(200); for (size_t i = 0; i < n; i++) strs.push_back(rs("ab", 1, 30)); break; }
+  case 8: { size_t n = 1 + r.below(200); std::string alpha; for (int c = 1; c < 255; c++) alpha += (char)c; for (size_t i = 0; i < n; i++) strs.push_back(rs(alpha, 1, 40)); break; }
+  }
+  std::vector<int> seq;
+  for (auto &s : strs) { for (unsigned char c : s) seq.push_back((int)c); seq.push_back(0); }
+  return seq;
+}
+
+static void mode_repair(uint64_t seed, long cases) {
+  Rng r(seed);
+  for (long cs = 0; cs < cases; cs++) {
+    std::string shape;
+    std::vector<int> orig = gen_repair_input(r, &shape);
+    std::vector<int> work = orig;
+    work.resize(orig.size() + 8, 0);
+    obs::crumb("C20", "repair", shape + " len=" + std::to_string(orig.size()));
+    obs::count("cls.repair_" + shape);
+    RePair *rp = new RePair(work.data(), (uint)orig.size(), 0);
+    uint64_t T = rp->terminals, R = rp->rules;
+    if (R == 0) obs::count("cls.rules_0");
+    obs::count("eval.repair_case");
+    // rules: both sides non-zero, refer only to terminals or earlier... (acyclic): side < terminals + rule index is NOT required by the format,
+    // only side < terminals + rules and an expansion that terminates; depth is measured with a cycle guard
+    bool bad = false;
+    std::vector<int> depth(R, -1);
+    for (uint64_t i = 0; i < R && !bad; i++) {
+      uint64_t l = rp->G->getField(2 * i), rr = rp->G->getField(2 * i + 1);
+      if (l == 0 || rr == 0) { V("C20", "repair", "terminator-in-rule", shape, "rule " + std::to_string(i) + " = (" + std::to_string(l) + "," + std::to_string(rr) + ") contains the terminator 0"); bad = true; }
+      if (l >= T + R || rr >= T + R) { V("C20", "repair", "wrong-answer", shape, "rule " + std::to_string(i) + " refers to symbol beyond terminals+rules"); bad = true; }
+    }
+    if (rp->getBits() < bits(T + R - 1) && T + R > 0) { V("C20", "repair", "wrong-answer", shape, "getBits()=" + std::to_string(rp->getBits()) + " cannot hold identifier " + std::to_string(T + R - 1)); bad = true; }
+    // expansion with explicit stack + cycle guard
+    auto expand = [&](uint64_t sym, std::vector<int> &out, size_t limit) -> bool {
+      std::vector<uint64_t> st{sym};
+      size_t steps = 0;
+      while (!st.empty()) {
+        if (++steps > limit * 4 + 1000) return false;
+        uint64_t s = st.back(); st.pop_back();
+        if (s < T) out.push_back((int)s);
+        else { uint64_t i = s - T; if (i >= R) return false; st.push_back(rp->G->getField(2 * i + 1)); st.push_back(rp->G->getField(2 * i)); }
+      }
+      return true;
+    };
+    if (!bad) {
+      // walk the caller's array the way the dictionaries' compaction loops do
+      std::vector<int> rebuilt;
+      size_t io = 0, n = orig.size();
+      size_t guard = 0;
+      while (io < n && guard++ < 4 * n + 10) {
+        int v = work[io];
+        if (v >= 0) {
+          if ((uint64_t)v >= T) { if (!expand((uint64_t)v, rebuilt, n)) { V("C20", "repair", "wrong-answer", shape, "expansion of symbol " + std::to_string(v) + " does not terminate"); bad = true; break; } }
+          else rebuilt.push_back(v);
+          io++;
+        } else io = (size_t)(-(v + 1));
+      }
+      obs::count("eval.repair_symbols", (long)n);
+      if (!bad && rebuilt != orig) {
+        size_t i = 0; while (i < rebuilt.size() && i < orig.size() && rebuilt[i] == orig[i]) i++;
+        V("C20", "repair", "not-lossless", shape, "expansion differs from the original at symbol " + std::to_string(i) + " of " + std::to_string(orig.size()) + " (" + shape + ", " + std::to_string(R) + " rules)");
+        bad = true;
+      }
+      // expandRule of the library itself agrees with the explicit expansion
+      for (uint64_t i = 0; i < R && !bad && i < 3000; i++) {
+        std::vector<int> e;
+        if (!expand(T + i, e, n)) break;
+        std::vector<uchar> buf(e.size() + 4, 0xEE);
+        uint l = rp->expandRule((uint)i, buf.data());
+        obs::count("eval.repair_expandRule");
+        bool ok = l == e.size();
+        for (size_t k = 0; ok && k < e.size(); k++) ok = buf[k] == (uchar)e[k];
+        if (!ok || buf[e.size()] != 0xEE) { V("C20", "repair", "wrong-answer", shape, "expandRule(" + std::to_string(i) + ") disagrees with the grammar"); bad = true; }
+      }
+    }
+    // save / load of the grammar
+    if (!bad) {
+      std::stringstream ss(std::ios::in | std::ios::out | std::ios::binary);
+      rp->save(ss);
+      std::string img = ss.str();
+      std::stringstream in(img + "CANARY!!", std::ios::in | std::ios::binary);
+      RePair *l = RePair::loadNoSeq(in);
+      obs::count("eval.repair_saveload");
+      if ((size_t)in.tellg() != img.size()) V("C20", "repair", "leftover-bytes", shape, "loadNoSeq consumed " + std::to_string((long)in.tellg()) + " of " + std::to_string(img.size()));
+      if (l->terminals != T || l->rules != R) V("C20", "repair", "wrong-answer", shape, "counters differ after save/load");
+      else
+        for (uint64_t i = 0; i < 2 * R; i++)
+          if (l->G->getField(i) != rp->G->getField(i)) { V("C20", "repair", "wrong-answer", shape, "rule table differs after save/load at entry " + std::to_string(i)); break; }
+      delete l;
+    }
+    if (cs < 3) obs::line("X\tRe-Pair on a " + shape + " sequence of " + std::to_string(orig.size()) + " symbols: " + std::to_string(R) + " rules over " + std::to_string(T) + " terminals, expansion compared symbol for symbol");
+    delete rp;
+  }
+}
+
+int main(int argc, char **argv) {
+  std::string mode, out, variants = "rg,rrr,sdarray,darray";
+  uint64_t seed = 1, from = 0, to = 0;
+  long cases = 100, nrandom = 100000;
+  for (int i = 1; i < argc; i++) {
+    std::string a = argv[i];
+    auto val = [&]() { return std::string(i + 1 < argc ? argv[++i] : ""); };
+    if (a == "--mode") mode = val();
+    else if (a == "--out") out = val();
+    else if (a == "--seed") seed = strtoull(val().c_str(), NULL, 10);
+    else if (a == "--cases") cases = atol(val().c_str());
+    else if (a == "--from") from = strtoull(val().c_str(), NULL, 10);
+    else if (a == "--to") to = strtoull(val().c_str(), NULL, 10);
+    else if (a == "--random") nrandom = atol(val().c_str());
+    else if (a == "--variants") variants = val();
+    else if (a == "--big") g_big = 1;
+    else { fprintf(stderr, "unknown arg %s\n", a.c_str()); return 2; }
+  }
+#if defined(__SANITIZE_ADDRESS__)
+  obs::install(out.empty() ? NULL : out.c_str(), false);
+#else
+  obs::install(out.empty() ? NULL : out.c_str(), true);
+#endif
+  if (mode == "vbyte") mode_vbyte(from, to, seed, nrandom);
+  else if (mode == "logseq") mode_logseq(seed, cases);
+  else if (mode == "dacvls") mode_dacvls(seed, cases);
+  else if (mode == "dacbvls") mode_dacbvls(seed, cases);
+  else if (mode == "codes") mode_codes(seed, cases);
+  else if (mode == "bitseq") mode_bitseq(seed, cases, variants);
+  else if (mode == "wt") mode_wt(seed, cases);
+  else if (mode == "repair") mode_repair(seed, cases);
+  else { fprintf(stderr, "bad mode\n"); return 2; }
+  obs::count("violations", obs::n_viol);
+  obs::dump_counters();
+  obs::line("D\tok");
+  obs::flush();
+  _exit(0);
+}
